@@ -327,6 +327,12 @@ func (t *ClientTransport) PrepareKeys(pubkey [32]byte, sharedSecret []byte, dRan
 
 // ParseParams gives the specific transport an option to parse a generic object into parameters
 // provided by the station in the registration response during registration.
-func (ClientTransport) ParseParams(*anypb.Any) (any, error) {
-	return nil, nil
+func (ClientTransport) ParseParams(data *anypb.Any) (any, error) {
+	if data == nil {
+		return nil, nil
+	}
+
+	var m = &pb.DTLSTransportParams{}
+	err := transports.UnmarshalAnypbTo(data, m)
+	return m, err
 }
